@@ -179,10 +179,51 @@ proof! {
 	}
 }
 
+proof! {
+	[hash_mix, sort] fn body_inputs_roundtrip_v2_v3() {
+		// a body carrying two "features and commit" inputs (the v2-compatible variant) must decode
+		// from its own encoding at every version that can carry it; at v3+ only the commitments
+		// travel and they must arrive in the order the v3 reader demands
+		use grin_core::core::transaction::CommitWrapper;
+		use grin_core::core::{Inputs, TransactionBody};
+		env::set_chain_type(grin_core::global::ChainTypes::Mainnet);
+		let v = any_version();
+		let f1: bool = nd::any();
+		let f2: bool = nd::any();
+		let of = |c: bool| if c { OutputFeatures::Coinbase } else { OutputFeatures::Plain };
+		let c1 = any_commit();
+		let c2 = any_commit();
+		let i1 = Input::new(of(f1), c1);
+		let i2 = Input::new(of(f2), c2);
+		// exclude collisions of the (non-injective) model hash: real hashes of distinct values differ
+		nd::assume(CommitWrapper::from(c1).hash() != CommitWrapper::from(c2).hash());
+		nd::assume(i1.hash() != i2.hash());
+		let mut ins = vec![i1, i2];
+		if ins[0].hash() > ins[1].hash() {
+			ins.swap(0, 1);
+		}
+		let body = TransactionBody { inputs: Inputs::FeaturesAndCommit(ins), outputs: vec![], kernels: vec![] };
+		let (b, n) = enc::<_, 92>(&body, v);
+		check!(n == if v.value() >= 3 { 24 + 66 } else { 24 + 68 }, "three counts, then 33 (v3+) or 34 bytes per input");
+		let (r, used) = dec::<TransactionBody>(&b[..n], v);
+		check!(r.is_ok(), "a body decodes from its own encoding at this version");
+		let d = r.unwrap();
+		check!(used == n && d.inputs.len() == 2, "all bytes consumed, both inputs present");
+		let got: Vec<CommitWrapper> = (&d.inputs).into();
+		let has = |c: &Commitment| got[0].commitment().0 == c.0 || got[1].commitment().0 == c.0;
+		check!(has(&c1) && has(&c2), "inputs compared by commitment survive the round trip");
+		cover!(v.value() >= 3, "commit-only wire form");
+		cover!(v.value() < 3, "features-and-commit wire form");
+		core::mem::forget(d);
+		core::mem::forget(body);
+	}
+}
+
 pub const HARNESSES: &[(&str, fn())] = &[
 	("c10::kernel_features_roundtrip", kernel_features_roundtrip),
 	("c10::kernel_features_canonical", kernel_features_canonical),
 	("c10::txkernel_roundtrip_and_hash", txkernel_roundtrip_and_hash),
 	("c10::input_and_output_identifier_roundtrip", input_and_output_identifier_roundtrip),
 	("c10::input_canonical", input_canonical),
+	("c10::body_inputs_roundtrip_v2_v3", body_inputs_roundtrip_v2_v3),
 ];
